@@ -10,8 +10,12 @@
 #include "h_common.h"
 #include <aws/common/array_list.h>
 #include <aws/common/byte_buf.h>
+#include <aws/common/file.h>
+#include <aws/common/string.h>
+#include <errno.h>
 #include <stdlib.h>
 #include <string.h>
+#include <unistd.h>
 
 #define NB 8
 #define NC 8
@@ -27,6 +31,7 @@ struct blk {
     size_t size;
     bool live;
     bool heap;
+    bool guarded; /* pool block with canaries on both sides */
 };
 static struct blk s_blk[MAXBLK];
 static size_t s_nblk;
@@ -47,6 +52,7 @@ static size_t s_new_block(uint8_t *p, size_t size, bool heap) {
     s_blk[s_nblk].size = size;
     s_blk[s_nblk].live = true;
     s_blk[s_nblk].heap = heap;
+    s_blk[s_nblk].guarded = !heap;
     return s_nblk++;
 }
 
@@ -78,17 +84,13 @@ static void s_w_release(struct aws_allocator *a, void *p) {
     size_t id = s_find_block(p);
     HC_CHECK(id != NONE && s_blk[id].heap);
     if (!s_quiet) {
-        printf("P release rid=%zu size=%zu", id, s_blk[id].size);
-        if (s_secure_ctx) {
-            int zero = 1;
-            for (size_t i = 0; i < s_blk[id].size; ++i) {
-                if (s_blk[id].ptr[i]) {
-                    zero = 0;
-                }
+        int zero = 1;
+        for (size_t i = 0; i < s_blk[id].size; ++i) {
+            if (s_blk[id].ptr[i]) {
+                zero = 0;
             }
-            printf(" secure zero=%d", zero);
         }
-        printf("\n");
+        printf("P release rid=%zu size=%zu zero=%d\n", id, s_blk[id].size, zero);
     }
     s_blk[id].live = false;
     hc_allocator()->mem_release(hc_allocator(), p);
@@ -139,7 +141,7 @@ static size_t s_pool_block(size_t size) {
 
 static void s_check_guards(void) {
     for (size_t i = 1; i < s_nblk; ++i) {
-        if (!s_blk[i].heap) {
+        if (s_blk[i].guarded) {
             const uint8_t *lo = s_blk[i].ptr - GUARD, *hi = s_blk[i].ptr + s_blk[i].size;
             for (size_t k = 0; k < GUARD; ++k) {
                 if (lo[k] != CANARY || hi[k] != CANARY) {
@@ -153,7 +155,56 @@ static void s_check_guards(void) {
     }
 }
 
+/* aws_string objects made for cur_from_string (freed at case reset) */
+#define MAXSTR 256
+static struct aws_string *s_str[MAXSTR];
+static size_t s_nstr;
+
+/* ---- simulated file for aws_byte_buf_init_from_file: fread / feof of file.c are wrapped at link time ---- */
+static bool s_sim_active;
+static const uint8_t *s_sim_data;
+static size_t s_sim_len, s_sim_pos;
+static size_t s_sim_sched[64];
+static size_t s_sim_nsched, s_sim_isched;
+static bool s_sim_eof;
+
+size_t __real_fread(void *ptr, size_t size, size_t nmemb, FILE *fp);
+int __real_feof(FILE *fp);
+
+size_t __wrap_fread(void *ptr, size_t size, size_t nmemb, FILE *fp) {
+    if (!s_sim_active) {
+        return __real_fread(ptr, size, nmemb, fp);
+    }
+    HC_CHECK(size == 1);
+    size_t left = s_sim_len - s_sim_pos;
+    size_t want = nmemb < left ? nmemb : left;
+    size_t k = want;
+    bool eof = nmemb > left;
+    if (s_sim_isched < s_sim_nsched) {
+        size_t cap = s_sim_sched[s_sim_isched++];
+        if (cap < want) {
+            k = cap;
+            eof = false;
+        }
+    }
+    memcpy(ptr, s_sim_data + s_sim_pos, k);
+    s_sim_pos += k;
+    s_sim_eof = eof;
+    return k;
+}
+
+int __wrap_feof(FILE *fp) {
+    if (!s_sim_active) {
+        return __real_feof(fp);
+    }
+    return s_sim_eof ? 1 : 0;
+}
+
 static void s_reset(void) {
+    for (size_t i = 0; i < s_nstr; ++i) {
+        aws_string_destroy(s_str[i]);
+    }
+    s_nstr = 0;
     s_quiet = true;
     for (size_t i = 1; i < s_nblk; ++i) {
         if (s_blk[i].live && s_blk[i].heap) {
@@ -873,6 +924,241 @@ int main(void) {
             bool r = IS("cur_eq_buf") ? aws_byte_cursor_eq_byte_buf(&s_c[x], &s_b[y])
                                       : aws_byte_cursor_eq_byte_buf_ignore_case(&s_c[x], &s_b[y]);
             printf("P r pred %d\n", r ? 1 : 0);
+        } else if (IS("dump_tables") && n == 1) {
+            printf("P tolower ");
+            hc_put_hex(aws_lookup_table_to_lower_get(), 256);
+            printf("\nP hex2num ");
+            hc_put_hex(aws_lookup_table_hex_to_num_get(), 256);
+            printf("\n");
+        } else if (IS("buf_is_valid") && n == 2) {
+            int b = BS(t[1]);
+            if (b < 0) BAD();
+            printf("P r pred %d\n", aws_byte_buf_is_valid(&s_b[b]) ? 1 : 0);
+        } else if (IS("cur_is_valid") && n == 2) {
+            int c = CS(t[1]);
+            if (c < 0) BAD();
+            printf("P r pred %d\n", aws_byte_cursor_is_valid(&s_c[c]) ? 1 : 0);
+        } else if ((IS("buf_from_c_str") || IS("cur_from_c_str")) && n == 3) {
+            bool isbuf = t[0][0] == 'b';
+            int x = isbuf ? BS(t[1]) : CS(t[1]);
+            if (x < 0) BAD();
+            if (isbuf && s_b[x].buffer) SKIP("occupied");
+            size_t len;
+            uint8_t *p = hc_hex_decode(t[2], &len);
+            size_t slen = 0;
+            while (slen < len && p[slen]) ++slen;
+            if (isbuf && slen == 0) {
+                /* the model allocates no block for an empty buffer */
+                free(p);
+                printf("P r -\n");
+                s_b[x] = aws_byte_buf_from_c_str("");
+                s_print_buf(x);
+                goto done;
+            }
+            /* the string lives in a guarded pool block: strlen bytes + the terminator */
+            size_t id = s_pool_block(slen + 1);
+            memcpy(s_blk[id].ptr, p, slen);
+            s_blk[id].ptr[slen] = 0;
+            free(p);
+            printf("P r -\n");
+            if (isbuf) {
+                s_b[x] = aws_byte_buf_from_c_str((const char *)s_blk[id].ptr);
+                s_print_buf(x);
+            } else {
+                s_c[x] = aws_byte_cursor_from_c_str((const char *)s_blk[id].ptr);
+                s_cbase[x] = id;
+                s_print_cur(x);
+            }
+        } else if (IS("cur_from_string") && n == 3) {
+            int c = CS(t[1]);
+            if (c < 0) BAD();
+            HC_CHECK(s_nstr < MAXSTR);
+            size_t len;
+            uint8_t *p = hc_hex_decode(t[2], &len);
+            struct aws_string *str = aws_string_new_from_array(hc_allocator(), p, len);
+            free(p);
+            s_str[s_nstr++] = str;
+            size_t id = s_new_block((uint8_t *)aws_string_bytes(str), len, false);
+            s_blk[id].guarded = false;
+            s_c[c] = aws_byte_cursor_from_string(str);
+            s_cbase[c] = id;
+            printf("P r -\n");
+            s_print_cur(c);
+        } else if (IS("write_from_whole_string") && n == 3) {
+            int b = BS(t[1]);
+            if (b < 0) BAD();
+            size_t len;
+            uint8_t *p = hc_hex_decode(t[2], &len);
+            struct aws_string *str = aws_string_new_from_array(hc_allocator(), p, len);
+            free(p);
+            printf("P r %s\n", aws_byte_buf_write_from_whole_string(&s_b[b], str) ? "true" : "false");
+            aws_string_destroy(str);
+            s_print_buf(b);
+        } else if ((IS("string_eq_cursor") || IS("string_eq_cursor_ignore_case") || IS("string_eq_buf") || IS("string_eq_buf_ignore_case")) &&
+                   n == 3) {
+            bool isbuf = t[0][10] == 'b';
+            int x = isbuf ? BS(t[2]) : CS(t[2]);
+            if (x < 0) BAD();
+            if (!isbuf && s_stale(x)) SKIP("stale");
+            if (isbuf && s_bforged[x]) SKIP("forged");
+            size_t len;
+            uint8_t *p = hc_hex_decode(t[1], &len);
+            struct aws_string *str = aws_string_new_from_array(hc_allocator(), p, len);
+            free(p);
+            bool r = IS("string_eq_cursor")               ? aws_string_eq_byte_cursor(str, &s_c[x])
+                     : IS("string_eq_cursor_ignore_case") ? aws_string_eq_byte_cursor_ignore_case(str, &s_c[x])
+                     : IS("string_eq_buf")                ? aws_string_eq_byte_buf(str, &s_b[x])
+                                                          : aws_string_eq_byte_buf_ignore_case(str, &s_b[x]);
+            aws_string_destroy(str);
+            printf("P r pred %d\n", r ? 1 : 0);
+        } else if (IS("hash_ignore_case") && n == 2) {
+            int c = CS(t[1]);
+            if (c < 0) BAD();
+            if (s_stale(c)) SKIP("stale");
+            uint64_t h1 = aws_hash_byte_cursor_ptr_ignore_case(&s_c[c]);
+            uint64_t h2 = aws_hash_array_ignore_case(s_c[c].ptr, s_c[c].len);
+            if (h1 != h2) printf("P MONITOR hash-mismatch\n");
+            printf("P r OK %llu\n", (unsigned long long)h1);
+        } else if ((IS("array_eq") || IS("array_eq_ignore_case")) && n == 3) {
+            int x = CS(t[1]), y = CS(t[2]);
+            if (x < 0 || y < 0) BAD();
+            if (s_stale(x) || s_stale(y)) SKIP("stale");
+            bool r = IS("array_eq") ? aws_array_eq(s_c[x].ptr, s_c[x].len, s_c[y].ptr, s_c[y].len)
+                                    : aws_array_eq_ignore_case(s_c[x].ptr, s_c[x].len, s_c[y].ptr, s_c[y].len);
+            printf("P r pred %d\n", r ? 1 : 0);
+        } else if ((IS("array_eq_c_str") || IS("array_eq_c_str_ignore_case")) && n == 3) {
+            int x = CS(t[1]);
+            if (x < 0) BAD();
+            if (s_stale(x)) SKIP("stale");
+            size_t len;
+            uint8_t *p = hc_hex_decode(t[2], &len);
+            char *str = malloc(len + 1);
+            memcpy(str, p, len);
+            str[len] = 0;
+            free(p);
+            bool r = IS("array_eq_c_str") ? aws_array_eq_c_str(s_c[x].ptr, s_c[x].len, str)
+                                          : aws_array_eq_c_str_ignore_case(s_c[x].ptr, s_c[x].len, str);
+            free(str);
+            printf("P r pred %d\n", r ? 1 : 0);
+        } else if ((IS("write_float_be32") || IS("write_float_be64")) && n == 3) {
+            int b = BS(t[1]);
+            uint64_t bits = hc_parse_u64(t[2]);
+            if (b < 0) BAD();
+            bool ok;
+            if (IS("write_float_be32")) {
+                uint32_t w = (uint32_t)bits;
+                float f;
+                memcpy(&f, &w, 4);
+                ok = aws_byte_buf_write_float_be32(&s_b[b], f);
+            } else {
+                double f;
+                memcpy(&f, &bits, 8);
+                ok = aws_byte_buf_write_float_be64(&s_b[b], f);
+            }
+            printf("P r %s\n", ok ? "true" : "false");
+            s_print_buf(b);
+        } else if ((IS("read_float_be32") || IS("read_float_be64")) && n == 2) {
+            int c = CS(t[1]);
+            if (c < 0) BAD();
+            if (s_stale(c)) SKIP("stale");
+            bool ok;
+            uint64_t val = 0;
+            if (IS("read_float_be32")) {
+                float f = 0;
+                ok = aws_byte_cursor_read_float_be32(&s_c[c], &f);
+                uint32_t w;
+                memcpy(&w, &f, 4);
+                val = w;
+            } else {
+                double f = 0;
+                ok = aws_byte_cursor_read_float_be64(&s_c[c], &f);
+                memcpy(&val, &f, 8);
+            }
+            if (ok) {
+                printf("P r true %llu\n", (unsigned long long)val);
+            } else {
+                printf("P r false\n");
+            }
+            s_print_cur(c);
+        } else if (IS("init_cache") && n >= 3 && n <= 5) {
+            int b = BS(t[1]), c[3] = {-1, -1, -1};
+            if (b < 0) BAD();
+            for (int i = 2; i < n; ++i) {
+                c[i - 2] = CS(t[i]);
+                if (c[i - 2] < 0) BAD();
+            }
+            if (s_b[b].buffer) SKIP("occupied");
+            for (int i = 2; i < n; ++i) {
+                if (s_stale(c[i - 2])) SKIP("stale");
+            }
+            size_t total = 0;
+            bool ovf = false;
+            for (int i = 2; i < n; ++i) {
+                if (aws_add_size_checked(total, s_c[c[i - 2]].len, &total)) ovf = true;
+            }
+            if (!ovf && total > LIMIT) SKIP("huge");
+            int rc;
+            if (n == 3) {
+                rc = aws_byte_buf_init_cache_and_update_cursors(&s_b[b], &s_walloc, &s_c[c[0]], NULL);
+            } else if (n == 4) {
+                rc = aws_byte_buf_init_cache_and_update_cursors(&s_b[b], &s_walloc, &s_c[c[0]], &s_c[c[1]], NULL);
+            } else {
+                rc = aws_byte_buf_init_cache_and_update_cursors(&s_b[b], &s_walloc, &s_c[c[0]], &s_c[c[1]], &s_c[c[2]], NULL);
+            }
+            s_print_rc(rc);
+            s_print_buf(b);
+            if (rc == AWS_OP_SUCCESS) {
+                for (int i = 2; i < n; ++i) {
+                    s_cbase[c[i - 2]] = s_c[c[i - 2]].ptr ? s_base_of_buf(b) : NONE;
+                    s_print_cur(c[i - 2]);
+                }
+            }
+        } else if (IS("init_from_file") && n == 8) {
+            int b = BS(t[1]);
+            if (b < 0) BAD();
+            size_t statlen = hc_parse_size(t[3]), hint = hc_parse_size(t[7]);
+            bool use_hint = !strcmp(t[6], "hint");
+            if ((strcmp(t[2], "0") && strcmp(t[2], "1")) || (!use_hint && strcmp(t[6], "nohint")) || statlen > 65536 || hint > 65536) BAD();
+            size_t dlen;
+            uint8_t *data = hc_hex_decode(t[4], &dlen);
+            s_sim_nsched = 0;
+            if (strcmp(t[5], "-")) {
+                char *q = t[5];
+                while (*q && s_sim_nsched < 64) {
+                    s_sim_sched[s_sim_nsched++] = (size_t)strtoull(q, &q, 10);
+                    if (*q == ',') ++q;
+                }
+            }
+            if (s_b[b].buffer) {
+                free(data);
+                SKIP("occupied");
+            }
+            char path[64];
+            snprintf(path, sizeof(path), "/tmp/verif_c01_%ld.bin", (long)getpid());
+            if (t[2][0] == '1') {
+                FILE *fp = fopen(path, "wb");
+                HC_CHECK(fp != NULL);
+                HC_CHECK(ftruncate(fileno(fp), (off_t)statlen) == 0);
+                fclose(fp);
+            } else {
+                unlink(path);
+            }
+            s_sim_data = data;
+            s_sim_len = dlen;
+            s_sim_pos = 0;
+            s_sim_isched = 0;
+            s_sim_eof = false;
+            s_sim_active = true;
+            int rc = use_hint ? aws_byte_buf_init_from_file(&s_b[b], &s_walloc, path)
+                              : aws_byte_buf_init_from_file_with_size_hint(&s_b[b], &s_walloc, path, hint);
+            s_sim_active = false;
+            unlink(path);
+            free(data);
+            if (rc == AWS_OP_SUCCESS && (s_b[b].len >= s_b[b].capacity || s_b[b].buffer[s_b[b].len] != 0)) {
+                printf("P MONITOR no-nul-terminator len=%zu cap=%zu\n", s_b[b].len, s_b[b].capacity);
+            }
+            s_print_rc(rc);
+            s_print_buf(b);
         } else {
             printf("bad-op\n");
         }
